@@ -102,6 +102,8 @@ class Tensor:
             return Tensor((len(subs),) + sh, [d for s in subs for d in s.els])
         if isinstance(x, range):
             return Tensor((len(x),), list(x))
+        if x is None or isinstance(x, str):
+            raise RuntimeError(f'Could not infer dtype of {type(x).__name__}')
         return Tensor((), [x])
 
     @staticmethod
@@ -759,7 +761,10 @@ class Tensor:
         # compute the flat offsets addressed by the key by indexing a tensor of offsets
         offs = Tensor(self.shape, list(range(len(self.els))))._getitem_copy(self._norm_key(key))
         if isinstance(value, Tensor):
-            v = value.expand_to(offs.shape).els if value.shape != offs.shape else value.els
+            try:
+                v = value.expand_to(offs.shape).els if value.shape != offs.shape else value.els
+            except Unsupported:
+                raise RuntimeError(f'shape mismatch: value tensor of shape {value.shape} cannot be broadcast to indexing result of shape {offs.shape}')
         else:
             v = [value] * len(offs.els)
         cur = list(self.els)
